@@ -404,6 +404,8 @@ def special_forms(ctx):
 def _corrupt_shard(arg):
     strings = arg
     from btclib.descriptors import parse
+    from btclib.descriptors.descriptors import multipath_descriptors
+    from btclib.wallet.descriptor_wallet import DescriptorWallet
 
     st = Stats()
     errs = lib_errors()
@@ -423,6 +425,18 @@ def _corrupt_shard(arg):
                     pass
                 except Exception as e:  # noqa: BLE001
                     st.violation("C14/corrupted-descriptor-foreign-exception/" + type(e).__name__, {"descriptor": s[:30], "position": i, "char": c}, repr(e)[:80], "library refusal")
+                if "<" in s:
+                    # the two other readers of descriptor text: the BIP389 expansion and the wallet built on it
+                    # (the expansion is textual by design: what it answers is read only when each expansion parses)
+                    for nm, reader in (("multipath_descriptors", lambda x: [parse(y) for y in multipath_descriptors(x)]), ("DescriptorWallet.from_descriptor", DescriptorWallet.from_descriptor)):
+                        st.evals += 1
+                        try:
+                            reader(t)
+                            st.violation("C14/corrupted-descriptor-accepted/" + nm, {"descriptor": s[:30] + "...", "position": i, "char": c, "context": t[max(0, i - 6):i + 6]}, "read", "refused")
+                        except errs:
+                            pass
+                        except Exception as e:  # noqa: BLE001
+                            st.violation("C14/corrupted-descriptor-foreign-exception/" + type(e).__name__, {"reader": nm, "position": i, "char": c}, repr(e)[:80], "library refusal")
             # deletions and insertions of one character shift everything after: also refused
             for t in (s[:i] + s[i + 1:], s[:i] + s[i] + s[i:]):
                 st.evals += 1
@@ -443,7 +457,7 @@ def corruption(ctx):
     net = "mainnet"
     a, b, c = (f"{T[j].origin('h') if j == 0 else ''}{T[j].xpub(net)}/{j}/*" for j in range(3))
     texts = [f"wpkh({a})", f"sortedmulti(2,{a},{b})", f"tr({a},{{pk({b}),multi_a(1,{b},{c})}})", f"sh(wsh(multi(1,{b},{c})))", f"addr({address(b'\x00' + push(bytes(20)), net)})",
-             f"wsh(and_v(v:pk({b}),older(5)))", f"pkh({T[0].xpub(net)}/<0;1>/*)"]
+             f"wsh(and_v(v:pk({b}),older(5)))", f"pkh({T[0].xpub(net)}/<0;1>/*)", f"wsh(sortedmulti(1,{T[0].xpub(net)}/<1;3>/*,{T[1].xpub(net)}/<0;2>/*))"]
     strings = [add_checksum(t) for t in texts]
     shards = []
     for s in strings:
